@@ -25,8 +25,19 @@ package executor
 // decision built on it and that every compensating statement of the three undo executors is issued
 // only after that decision said 'go on'.
 
-//@ ext seata.apache.org/seata-go/pkg/datasource/sql/undo/executor.IsRecordsEquals
+// IsRecordsEquals dereferences beforeImage.TableMeta when there are rows to compare; callers set the
+// table meta on both images before undoing (SQLUndoLog.SetTableMeta), which is outside this contract.
+//@ func compareRows
+//@   trusted
 //@   ensures true
+//@ func IsRecordsEquals
+//@   prop C09
+//@   may_panic
+//@   ensures both-absent-equal: beforeImage == nil && afterImage == nil ==> result0 && result1 == nil
+//@   ensures one-absent-differs: (beforeImage == nil) != (afterImage == nil) ==> !result0 && result1 == nil
+//@   ensures row-count-differs: beforeImage != nil && afterImage != nil && len(beforeImage.Rows) != len(afterImage.Rows) ==> !result0 && result1 == nil && !called("compareRows#1")
+//@   ensures rows-compared: beforeImage != nil && afterImage != nil && result0 && len(beforeImage.Rows) > 0 ==> called("compareRows#1") && callres("compareRows#1", 0)
+//@   at call compareRows#1: assert compares-own-rows: arg_oldRows == beforeImage.Rows && arg_newRows == afterImage.Rows
 //@ func (*BaseExecutor).queryCurrentRecords
 //@   trusted
 //@   ensures true
@@ -51,9 +62,11 @@ package executor
 //@ func newMySQLUndoDeleteExecutor
 //@   prop C09
 //@   ensures has-validator: result != nil && result.baseExecutor != nil && result.baseExecutor.sqlUndoLog == sqlUndoLog && result.sqlUndoLog == sqlUndoLog
+//@   ensures queries-image-with-rows: result.baseExecutor.undoImage == sqlUndoLog.BeforeImage
 //@ func newMySQLUndoInsertExecutor
 //@   prop C09
 //@   ensures has-validator: result != nil && result.BaseExecutor != nil && result.BaseExecutor.sqlUndoLog == sqlUndoLog && result.sqlUndoLog == sqlUndoLog
+//@   ensures queries-image-with-rows: result.BaseExecutor.undoImage == sqlUndoLog.AfterImage
 
 //@ func (*BaseExecutor).dataValidationAndGoOn
 //@   prop C09
